@@ -360,10 +360,10 @@ func ParentMain(p *Prop, tier, verifDir, outDir string) int {
 			if res.StatesCap {
 				statesCapped = true
 			}
-			if readHashes(filepath.Join(work, fmt.Sprintf("states_%d.bin", k)), states, 20000000) {
+			if readHashes(filepath.Join(work, fmt.Sprintf("states_%d.bin", k)), states, 5000000) {
 				statesCapped = true
 			}
-			readHashes(filepath.Join(work, fmt.Sprintf("cases_%d.bin", k)), caseHashes, 50000000)
+			readHashes(filepath.Join(work, fmt.Sprintf("cases_%d.bin", k)), caseHashes, 20000000)
 		}
 		so := fileSize(filepath.Join(work, fmt.Sprintf("out_%d", k)))
 		se := fileSize(filepath.Join(work, fmt.Sprintf("err_%d", k)))
